@@ -29,6 +29,43 @@ type c05Input struct {
 	format  formats.Format // the format the bytes are written in
 	unique  bool           // the input's own identifiers are unique (or absent)
 	resolve bool           // the input's own references resolve
+	nodes   int            // number of nodes the input describes (distinct references + reference-less components); -1 unknown
+}
+
+// cdxNodeCount: distinct non-empty references plus reference-less components; -1 when an explicit
+// reference could collide with a generated one.
+func cdxNodeCount(b *cdx.BOM) int {
+	refs := map[string]bool{}
+	anon := 0
+	clash := false
+	var walk func(c *cdx.Component)
+	walk = func(c *cdx.Component) {
+		if c.BOMRef == "" {
+			anon++
+		} else {
+			refs[c.BOMRef] = true
+			if strings.HasPrefix(c.BOMRef, "protobom-") {
+				clash = true
+			}
+		}
+		if c.Components != nil {
+			for i := range *c.Components {
+				walk(&(*c.Components)[i])
+			}
+		}
+	}
+	if b.Metadata != nil && b.Metadata.Component != nil {
+		walk(b.Metadata.Component)
+	}
+	if b.Components != nil {
+		for i := range *b.Components {
+			walk(&(*b.Components)[i])
+		}
+	}
+	if clash && anon > 0 {
+		return -1
+	}
+	return len(refs) + anon
 }
 
 func cdxRefsUnique(b *cdx.BOM) bool {
@@ -104,6 +141,9 @@ func checkParsed(doc *sbom.Document, in c05Input) string {
 		if strings.HasPrefix(n.Id, "protobom-auto--") && !idSafeRe.MatchString(n.Id) {
 			return fmt.Sprintf("generated identifier %q has characters outside the identifier-safe alphabet", n.Id)
 		}
+	}
+	if in.nodes >= 0 && len(nl.Nodes) != in.nodes {
+		return fmt.Sprintf("the input describes %d nodes (distinct references plus reference-less components), %d were parsed", in.nodes, len(nl.Nodes))
 	}
 	if in.unique {
 		for id, k := range ids {
@@ -203,7 +243,7 @@ func runC05(seed int64, n int, dir string, tier string) *Report {
 		ver := gen.Pick(g, []cdx.SpecVersion{cdx.SpecVersion1_3, cdx.SpecVersion1_4, cdx.SpecVersion1_5})
 		fm := map[cdx.SpecVersion]formats.Format{cdx.SpecVersion1_3: formats.CDX13JSON, cdx.SpecVersion1_4: formats.CDX14JSON, cdx.SpecVersion1_5: formats.CDX15JSON}[ver]
 		if data := gen.EncodeCDX(b, ver); data != nil {
-			inputs = append(inputs, c05Input{name: fmt.Sprintf("generated-cdx-%d", i), data: data, format: fm, unique: cdxRefsUnique(b), resolve: true})
+			inputs = append(inputs, c05Input{name: fmt.Sprintf("generated-cdx-%d", i), data: data, format: fm, unique: cdxRefsUnique(b), resolve: true, nodes: cdxNodeCount(b)})
 		}
 		dup, dang := 0.0, 0.0
 		if i%3 == 1 {
@@ -215,7 +255,7 @@ func runC05(seed int64, n int, dir string, tier string) *Report {
 		sd := g.NativeSPDX(8, dup, dang)
 		u, r := spdxFacts(sd)
 		if data := gen.EncodeSPDX(sd); data != nil {
-			inputs = append(inputs, c05Input{name: fmt.Sprintf("generated-spdx-%d", i), data: data, format: formats.SPDX23JSON, unique: u, resolve: r})
+			inputs = append(inputs, c05Input{name: fmt.Sprintf("generated-spdx-%d", i), data: data, format: formats.SPDX23JSON, unique: u, resolve: r, nodes: len(sd.Packages) + len(sd.Files)})
 		}
 	}
 	// the repository's real SBOMs and mutants of them that still parse (closure is required of the
@@ -232,12 +272,12 @@ func runC05(seed int64, n int, dir string, tier string) *Report {
 		if d, _ := parseDoc(data, ""); d == nil {
 			continue
 		}
-		inputs = append(inputs, c05Input{name: name, data: data, format: fm, unique: false, resolve: true})
+		inputs = append(inputs, c05Input{name: name, data: data, format: fm, unique: false, resolve: true, nodes: -1})
 		k := 0
 		jsonfault.Each(data, n/4+1, func(m jsonfault.Mutant) bool {
 			k++
 			if k%5 == 0 && len(m.Data) < 40000 {
-				inputs = append(inputs, c05Input{name: name + m.Path + ":" + m.Fault, data: m.Data, unique: false, resolve: false})
+				inputs = append(inputs, c05Input{name: name + m.Path + ":" + m.Fault, data: m.Data, unique: false, resolve: false, nodes: -1})
 			}
 			return true
 		})
